@@ -6,6 +6,7 @@ import (
 	"math"
 	"math/big"
 	"sort"
+	"strconv"
 	"strings"
 
 	"verif/vk"
@@ -18,6 +19,7 @@ import (
 // ---- fixed validators (deterministic keys), numbered in ADDRESS order: id 0 has the lowest address ----
 
 type fixture struct {
+	priv crypto.PrivKeyEd25519
 	pub  crypto.PubKey
 	addr crypto.Address
 	name string // secret the key was derived from
@@ -28,8 +30,9 @@ var fx []fixture
 func initFixtures(n int) {
 	for i := 0; i < n; i++ {
 		name := fmt.Sprintf("v%d", i)
-		pk := crypto.GenPrivKeyEd25519FromSecret([]byte(name)).PubKey()
-		fx = append(fx, fixture{pk, pk.Address(), name})
+		sk := crypto.GenPrivKeyEd25519FromSecret([]byte(name))
+		pk := sk.PubKey()
+		fx = append(fx, fixture{sk, pk, pk.Address(), name})
 	}
 	sort.Slice(fx, func(a, b int) bool { return bytes.Compare(fx[a].addr, fx[b].addr) < 0 })
 	for i := 1; i < len(fx); i++ {
@@ -48,8 +51,32 @@ func idOf(addr []byte) int {
 	return -1
 }
 
-func coinbase(id, alt int) common.Address {
-	return common.BytesToAddress([]byte{0xc0, byte(id), byte(alt)})
+var cbTable [16][3]common.Address
+
+func init() {
+	for id := range cbTable {
+		for alt := range cbTable[id] {
+			cbTable[id][alt] = common.BytesToAddress([]byte{0xc0, byte(id), byte(alt)})
+		}
+	}
+}
+
+func coinbase(id, alt int) common.Address { return cbTable[id][alt] }
+
+// appendEntry renders one validator as "id:power:ccb:aaccum," (shared by the reference and the observation)
+func appendEntry(b []byte, id int, p int64, cb int, a int64) []byte {
+	b = strconv.AppendInt(b, int64(id), 10)
+	b = append(b, ':')
+	if p >= 0 && p < 1<<31 {
+		b = strconv.AppendInt(b, p, 10)
+	} else {
+		b = append(b, pstr(p)...)
+	}
+	b = append(b, ':', 'c')
+	b = strconv.AppendInt(b, int64(cb), 10)
+	b = append(b, ':', 'a')
+	b = strconv.AppendInt(b, a, 10)
+	return append(b, ',')
 }
 
 func mkVal(id int, power int64, cb int) *types.Validator {
@@ -287,12 +314,13 @@ func (m *model) content() string {
 
 // String: full state incl. priorities and proposer cache
 func (m *model) String() string {
-	var b strings.Builder
+	b := make([]byte, 0, 96)
 	for _, v := range m.v {
-		fmt.Fprintf(&b, "%d:%s:c%d:a%d,", v.id, pstr(v.p), v.cb, v.a)
+		b = appendEntry(b, v.id, v.p, v.cb, v.a)
 	}
-	fmt.Fprintf(&b, "|P=%d", m.prop)
-	return b.String()
+	b = append(b, "|P="...)
+	b = strconv.AppendInt(b, int64(m.prop), 10)
+	return string(b)
 }
 
 func (m *model) vals() []*types.Validator {
@@ -306,26 +334,27 @@ func (m *model) vals() []*types.Validator {
 // ---- observation of a real set in the same vocabulary ----
 
 func snapSet(s *types.ValidatorSet) string {
-	var b strings.Builder
+	b := make([]byte, 0, 96)
 	for _, v := range s.Validators {
 		id := idOf(v.Address)
 		cb := -1
 		for alt := 0; alt < 3 && id >= 0; alt++ {
-			if v.CoinBase == coinbase(id, alt) {
+			if v.CoinBase == cbTable[id][alt] {
 				cb = alt
 			}
 		}
 		if id >= 0 && !v.PubKey.Equals(fx[id].pub) {
 			id = -2
 		}
-		fmt.Fprintf(&b, "%d:%s:c%d:a%d,", id, pstr(v.VotingPower), cb, v.Accum)
+		b = appendEntry(b, id, v.VotingPower, cb, v.Accum)
 	}
 	p := -1
 	if s.Proposer != nil {
 		p = idOf(s.Proposer.Address)
 	}
-	fmt.Fprintf(&b, "|P=%d", p)
-	return b.String()
+	b = append(b, "|P="...)
+	b = strconv.AppendInt(b, int64(p), 10)
+	return string(b)
 }
 
 func sortedStrict(s *types.ValidatorSet) bool {
